@@ -1,9 +1,10 @@
 /-
 Record types of the operator / function table that `translate/operators.py`
 generates from operator_impl.{h,cc}, node_funcs.cc, tensor_funcs.cc,
-arithmetic.h, contrib/functions.h, device.cc and tensor.cc, and the checking
-functions (all `Bool`-valued, structural recursion with fuel, so that `decide`
-evaluates them in the kernel) used by the theorems of Props/C04.lean.
+arithmetic.h, basic_functions.h, contrib/functions.h, device.cc and tensor.cc,
+and the checking functions (all `Bool`-valued, structural recursion on fuel, so
+that `decide` evaluates them in the kernel) used by the theorems of
+Props/C04.lean.
 
 Core Lean only.  The table is data: strings, naturals and lists.
 
@@ -52,6 +53,8 @@ deriving DecidableEq, Repr, Inhabited
 structure Call where
   /-- destination term (`""` for a statement) -/
   dst : String
+  /-- type class of the destination -/
+  ty : String
   /-- set | add | sub | ret | push | throwif | stmt -/
   mode : String
   /-- fn (functions::f) | op (operator on variables) | kernel (Device method) | self (method of
@@ -59,13 +62,16 @@ structure Call where
   noop | throw | unsupported -/
   kind : String
   name : String
-  /-- receiver: the device expression of a kernel call, the object of a method, the graph of a `reg` -/
+  /-- receiver: the device expression of a kernel call, the object of a method, the graph of a
+  `reg`, the explicit template argument of a `fn` -/
   recv : String
   args : List String
   /-- constructor arguments of the operator of a `reg` -/
   cargs : List String
-  /-- `""`, `"i<n_"` (counted loop) or `"gxi:gx"` (range-for) -/
+  /-- bound of the enclosing counted loop (`"n_"`), `":gx"` for a range-for over `gx`, `""` = no loop -/
   loop : String
+  /-- the loop variable -/
+  lvar : String
 deriving DecidableEq, Repr, Inhabited
 
 structure Branch where
@@ -111,6 +117,8 @@ structure Op where
   ctorBody : Body
   /-- number of tensors returned by `get_inner_values()` (operators with inner values) -/
   innerCount : Nat
+  /-- body of `get_inner_values()` -/
+  innerBody : Body
   hasForward : Bool
   fwdShape : Rule
   fwd : Rule
@@ -118,12 +126,16 @@ structure Op where
 deriving Repr, Inhabited
 
 /-- A function: a public function on Nodes (node_funcs.cc) or on Tensors
-(tensor_funcs.cc), an operator template of arithmetic.h, a composite template
-of contrib/functions.h, a device front-end of device.cc, a Tensor method. -/
+(tensor_funcs.cc), an operator template of arithmetic.h, a wrapper template of
+basic_functions.h, a composite template of contrib/functions.h, a device
+front-end of device.cc, a Tensor method. -/
 structure Fn where
-  /-- `""`, `"batch"`, `"random"`, `"Device"`, `"Tensor"` -/
+  /-- `""`, `"batch"`, `"random"`, `"(anon)"`, `"Device"`, `"Tensor"` -/
   ns : String
+  /-- namespace-qualified name relative to primitiv::functions (`"batch::pick"`) -/
   name : String
+  /-- `"Tensor"` / `"Node"` for a specialisation, `"Var"` for a generic template -/
+  targ : String
   params : List Param
   body : Body
 deriving Repr, Inhabited
@@ -134,8 +146,567 @@ structure Table where
   tensorFns : List Fn
   arithFns : List Fn
   sharedFns : List Fn
+  basicFns : List Fn
   fronts : List Fn
   tmethods : List Fn
 deriving Repr, Inhabited
+
+/-! ## Lookups -/
+
+def Table.findOp (t : Table) (n : String) : Option Op := t.ops.find? (·.name == n)
+
+def Branch.calls (b : Branch) : List Call := b.pre ++ b.body
+
+def bodyCalls (b : Body) : List Call := b.flatMap Branch.calls
+
+/-- type classes that overload resolution does not distinguish -/
+def tyNorm (s : String) : String :=
+  if s == "f32" || s == "u32" || s == "i32" || s == "num" || s == "bool" then "num"
+  else if s == "dev" || s == "devp" then "dev"
+  else if s == "graph" || s == "graphp" then "graph"
+  else s
+
+def isVecTy (s : String) : Bool := s == "vars" || s == "varptrs"
+
+/-! ## `OpTable.no_unsupported` -/
+
+def bodySupported (b : Body) : Bool := (bodyCalls b).all (·.kind != "unsupported")
+
+def Op.supported (o : Op) : Bool :=
+  (match o.argn with | .unsupported _ => false | _ => true) &&
+  (match o.retn with | .unsupported _ => false | _ => true) &&
+  -- every member initialiser is `attr_(ctor parameter)`
+  o.ctorInit.all (fun p => o.attrs.any (·.name == p.1) && o.ctorParams.any (·.name == p.2)) &&
+  bodySupported o.ctorBody && bodySupported o.innerBody &&
+  bodySupported o.fwdShape.body && bodySupported o.fwd.body && bodySupported o.bwd.body
+
+def Fn.supported (f : Fn) : Bool := bodySupported f.body
+
+def Table.noUnsupported (t : Table) : Bool :=
+  t.ops.all Op.supported && t.nodeFns.all Fn.supported && t.tensorFns.all Fn.supported &&
+  t.arithFns.all Fn.supported && t.sharedFns.all Fn.supported && t.basicFns.all Fn.supported &&
+  t.fronts.all Fn.supported && t.tmethods.all Fn.supported
+
+/-! ## `OpTable.arity_consistent` -/
+
+/-- an index use on `x` / `gx` against the declared argument count -/
+def idxOkArg (argn : Argn) : Idx → Bool
+  | .none => true
+  | .upto n =>
+    match argn with
+    | .num k => decide (n < k)
+    | .nonzero => n == 0
+    | _ => false
+  | .all _ => true
+
+/-- an index use on `y` / `gy` against the declared return count; `guard0` = the shape rule
+rejects a zero count, so that index 0 exists -/
+def idxOkRet (retn : Retn) (guard0 : Bool) : Idx → Bool
+  | .none => true
+  | .upto n =>
+    match retn with
+    | .num k => decide (n < k)
+    | .attr _ => n == 0 && guard0
+    | _ => false
+  | .all b =>
+    match retn with
+    | .attr a => b == a
+    | _ => false
+
+/-- the values a rule assigns are exactly the declared returns -/
+def assignsAll (retn : Retn) (r : Rule) : Bool :=
+  match retn with
+  | .num k => r.ySet == List.range k && r.ySetAll == ""
+  | .attr a => r.ySet == [] && r.ySetAll == a
+  | _ => false
+
+/-- the shape rule throws when the attribute `a` is zero: `if (a == 0) THROW` -/
+def rejectsZero (r : Rule) (a : String) : Bool :=
+  let cs := bodyCalls r.body
+  cs.any fun c => c.mode == "throwif" &&
+    cs.any fun d => some d.dst == c.args.head? && d.kind == "arith" && d.name == "==" && d.args == [a, "#0"]
+
+def Op.arityOk (o : Op) : Bool :=
+  let g0 := match o.retn with | .attr a => rejectsZero o.fwdShape a | _ => true
+  idxOkArg o.argn o.fwdShape.x && idxOkRet o.retn g0 o.fwdShape.y &&
+  idxOkArg o.argn o.fwd.x && idxOkRet o.retn g0 o.fwd.y &&
+  idxOkArg o.argn o.bwd.x && idxOkRet o.retn g0 o.bwd.y &&
+  idxOkArg o.argn o.bwd.gx && idxOkRet o.retn g0 o.bwd.gy &&
+  assignsAll o.retn o.fwdShape &&
+  (if o.innerValues then (o.retn == .num o.innerCount && !o.hasForward)
+   else (o.hasForward && assignsAll o.retn o.fwd))
+
+/-- `if (xs.empty()) THROW` occurs in the calls -/
+def rejectsEmpty (cs : List Call) (xs : String) : Bool :=
+  cs.any fun c => c.mode == "throwif" &&
+    cs.any fun d => some d.dst == c.args.head? && d.kind == "method" && d.name == "empty" && d.recv == xs
+
+/-- One registration `add_operator(new Op(cargs…), {nodes…})` of a Node function against the
+operator's declaration. -/
+def regOk (t : Table) (f : Fn) (cs : List Call) (c : Call) : Bool :=
+  match t.findOp c.name with
+  | none => false
+  | some o =>
+    c.cargs.length == o.ctorParams.length &&
+    (let vec := c.args.filter fun a => f.params.any fun p => p.name == a && isVecTy p.ty
+     if vec.isEmpty then
+       match o.argn with
+       | .num k => c.args.length == k
+       | .nonzero => decide (c.args.length > 0)
+       | .any => true
+       | .unsupported _ => false
+     else
+       -- a whole vector of nodes is passed
+       c.args.length == 1 &&
+       (match o.argn with
+        | .nonzero => rejectsEmpty cs (c.args.headD "")
+        | .any => true
+        | _ => false))
+
+def Fn.regsOk (t : Table) (f : Fn) : Bool :=
+  let cs := bodyCalls f.body
+  cs.all fun c => c.kind != "reg" || regOk t f cs c
+
+def Table.arityConsistent (t : Table) : Bool :=
+  t.ops.all Op.arityOk && t.nodeFns.all (Fn.regsOk t)
+
+/-- the operators / functions that violate `arityConsistent` (diagnostics) -/
+def Table.arityOffenders (t : Table) : List String :=
+  (t.ops.filter (fun o => !o.arityOk)).map (·.name) ++
+  (t.nodeFns.filter (fun f => !f.regsOk t)).map (·.name)
+
+/-! ## Symbolic evaluation
+
+A term is a token list.  A body is evaluated over terms: pure calls build
+compound terms, a `kernel` call (a `Device` method, `Tensor::reshape/flatten`)
+is appended to the trace and yields a fresh result atom, a call of a function
+of primitiv::functions / an operator is resolved through the table by name and
+argument types and inlined, an `add_operator` registration runs the operator's
+FWD_SHAPE rule (giving the static shape term) and its FORWARD rule.  A branch
+condition that the path condition does not decide splits the evaluation. -/
+
+abbrev Tm := List String
+
+structure Val where
+  tm : Tm
+  ty : String
+deriving DecidableEq, Repr, Inhabited
+
+structure KCall where
+  kernel : String
+  recv : Tm
+  args : List Tm
+  /-- bound of the enclosing loop (`[]` = none) -/
+  loop : Tm
+deriving DecidableEq, Repr, Inhabited
+
+/-- One operator registration met on a path. -/
+structure RegRec where
+  op : String
+  /-- the value of `*y[0]` (or `*y[i]`) after FWD_SHAPE -/
+  shapeTm : Tm
+  /-- position and number of the kernel calls of its FORWARD rule in the trace -/
+  first : Nat
+  count : Nat
+  /-- the value computed by FORWARD -/
+  ret : Tm
+deriving DecidableEq, Repr, Inhabited
+
+structure St where
+  env : List (String × Val)
+  trace : List KCall
+  regs : List RegRec
+  /-- path condition -/
+  pc : List (Tm × Bool)
+  nres : Nat
+  /-- bound of the loop being evaluated (`[]` = none) -/
+  lp : Tm
+  /-- evaluation failed (out of fuel, unknown function / operator, unsupported entry) -/
+  bad : Bool
+deriving Repr, Inhabited
+
+abbrev Outcome := St × Option Val
+
+def commaSep : List Tm → Tm
+  | [] => []
+  | [a] => a
+  | a :: rest => a ++ "," :: commaSep rest
+
+def mkApp (f : String) (args : List Tm) : Tm := f :: "(" :: (commaSep args ++ [")"])
+
+def mkList (args : List Tm) : Tm := "[" :: (commaSep args ++ ["]"])
+
+/-- first element of a list term `[ a , b ]` (tokens up to the first top-level `,` or `]`) -/
+def firstElemAux : List String → Nat → Tm
+  | [], _ => []
+  | t :: rest, depth =>
+    if t == "(" || t == "[" then t :: firstElemAux rest (depth + 1)
+    else if t == ")" then t :: firstElemAux rest (depth - 1)
+    else if t == "]" then (if depth == 0 then [] else t :: firstElemAux rest (depth - 1))
+    else if t == "," && depth == 0 then []
+    else t :: firstElemAux rest depth
+
+def firstElem (tm : Tm) : Tm :=
+  match tm with
+  | "[" :: rest => firstElemAux rest 0
+  | _ => mkApp "at" [tm, ["#0"]]
+
+def lookupVal (env : List (String × Val)) (a : String) : Val :=
+  match env.lookup a with
+  | some v => v
+  | none => ⟨[a], "num"⟩
+
+def bindVal (env : List (String × Val)) (k : String) (v : Val) : List (String × Val) :=
+  (k, v) :: env
+
+def St.fail (s : St) : St := { s with bad := true }
+
+def resultAtom (n : Nat) : Tm := "r" :: List.replicate n "'"
+
+def xNames : List String := ["x0", "x1", "x2", "x3", "x4", "x5", "x6", "x7"]
+def pNames : List String := ["p0", "p1", "p2", "p3", "p4", "p5", "p6", "p7", "p8", "p9"]
+
+/-- Function lookup by qualified name, variable type and normalised argument types:
+Node level → node_funcs.cc first, Tensor level → tensor_funcs.cc first; then the wrappers of
+basic_functions.h and the composites of contrib/functions.h. -/
+def findFn (t : Table) (node : Bool) (name : String) (argTys : List String) : Option Fn :=
+  let want := argTys.map tyNorm
+  let ok (f : Fn) : Bool :=
+    f.name == name && f.params.map (fun p => tyNorm p.ty) == want &&
+    (f.targ == "" || f.targ == "Var" || f.targ == (if node then "Node" else "Tensor"))
+  ((if node then t.nodeFns else t.tensorFns) ++ t.basicFns ++ t.sharedFns).find? ok
+
+def findArith (t : Table) (sym : String) (argTys : List String) : Option Fn :=
+  let name :=
+    if sym == "+" || sym == "pos" then "operator+" else if sym == "-" || sym == "neg" then "operator-"
+    else if sym == "*" then "operator*" else if sym == "/" then "operator/" else sym
+  let want := argTys.map tyNorm
+  t.arithFns.find? fun f => f.name == name && f.params.map (fun p => tyNorm p.ty) == want
+
+def isDevsel (tm : Tm) : Bool := tm.head? == some "devsel"
+
+/-- value of a pure call (no kernel, no function) -/
+def pureVal (c : Call) (recv : Val) (args : List Val) : Val :=
+  let as := args.map (·.tm)
+  if c.kind == "method" then
+    if c.name == "at" then
+      (if args.map (·.tm) == [["#0"]] && (recv.ty == "nodes" || recv.tm.head? == some "[") then
+         (if recv.ty == "nodes" then ⟨recv.tm, "var"⟩ else ⟨firstElem recv.tm, c.ty⟩)
+       else ⟨mkApp "at" (recv.tm :: as), c.ty⟩)
+    else if c.name == "device" then ⟨mkApp "dev" [recv.tm], "dev"⟩
+    else ⟨mkApp c.name (recv.tm :: as), c.ty⟩
+  else if c.kind == "helper" then
+    if c.name == "ptr_to_obj" || c.name == "obj_to_ptr" then ⟨(args.headD default).tm, c.ty⟩
+    else if c.name == "Graph::get_reference_or_default" then ⟨mkApp "graphsel" as, "graph"⟩
+    else
+      -- get_device(dev) / Device::get_reference_or_default(dev) / Device::get_default():
+      -- "the device `dev` points to, or the default device"
+      (let a := (args.headD ⟨["#nullptr"], "dev"⟩).tm
+       if isDevsel a then ⟨a, "dev"⟩ else ⟨mkApp "devsel" [a], "dev"⟩)
+  else if c.kind == "arith" then
+    if c.name == "&" || c.name == "std::move" then ⟨(args.headD default).tm, (args.headD default).ty⟩
+    else ⟨mkApp c.name as, c.ty⟩
+  else if c.kind == "ctor" then
+    if c.name == "{}" || c.name == "Shape" then ⟨mkList as, c.ty⟩
+    else if c.name == "vector" && as.length == 1 then ⟨(args.headD default).tm, c.ty⟩
+    else if c.name == "default" then ⟨mkList [], c.ty⟩
+    else ⟨mkApp c.name as, c.ty⟩
+  else if c.kind == "shape" then ⟨"shape_ops" :: mkApp c.name as, "shape"⟩
+  else if c.kind == "self" then ⟨mkApp c.name as, c.ty⟩
+  else ⟨(args.headD default).tm, (args.headD default).ty⟩   -- copy
+
+/-- store the result of a call -/
+def store (c : Call) (v : Val) (s : St) : St :=
+  if c.dst == "" then s
+  else if c.mode == "push" then
+    -- `ret.emplace_back(v)` inside a loop
+    { s with env := bindVal s.env c.dst ⟨"loopvec" :: v.tm, "vars"⟩ }
+  else { s with env := bindVal s.env c.dst (if c.ty == "" || c.ty == "other" then v else ⟨v.tm, c.ty⟩) }
+
+mutual
+
+/-- the calls of one branch, in order; stops at a `ret` -/
+def evalCalls (t : Table) (node : Bool) : Nat → List Call → St → List Outcome
+  | 0, _, s => [(s.fail, none)]
+  | _ + 1, [], s => [(s, none)]
+  | fuel + 1, c :: rest, s =>
+    (evalCall t node fuel c s).flatMap fun (o : Outcome) =>
+      match o.2 with
+      | some v => [(o.1, some v)]
+      | none => if o.1.bad then [(o.1, none)] else evalCalls t node fuel rest o.1
+
+/-- a decision list -/
+def evalBody (t : Table) (node : Bool) : Nat → Body → St → List Outcome
+  | 0, _, s => [(s.fail, none)]
+  | _ + 1, [], s => [(s, none)]
+  | fuel + 1, br :: rest, s =>
+    (evalCalls t node fuel br.pre s).flatMap fun (o : Outcome) =>
+      let s1 := o.1
+      if s1.bad then [(s1, none)]
+      else if br.cond == "" then
+        (evalCalls t node fuel br.body s1).flatMap fun (o2 : Outcome) =>
+          match o2.2 with
+          | some v => [(o2.1, some v)]
+          | none => if o2.1.bad then [o2] else evalBody t node fuel rest o2.1
+      else
+        let c := (lookupVal s1.env br.cond).tm
+        match s1.pc.lookup c with
+        | some true => evalCalls t node fuel br.body s1
+        | some false => evalBody t node fuel rest s1
+        | none =>
+          evalCalls t node fuel br.body { s1 with pc := (c, true) :: s1.pc } ++
+          evalBody t node fuel rest { s1 with pc := (c, false) :: s1.pc }
+
+/-- inline a function: parameters bound to the argument values in a fresh environment -/
+def evalFn (t : Table) (node : Bool) : Nat → Fn → List Val → St → List Outcome
+  | 0, _, _, s => [(s.fail, none)]
+  | fuel + 1, f, args, s =>
+    let env := (f.params.map (·.name)).zip args
+    (evalBody t node fuel f.body { s with env := env }).map fun (o : Outcome) =>
+      ({ o.1 with env := s.env }, o.2)
+
+/-- one call -/
+def evalCall (t : Table) (node : Bool) : Nat → Call → St → List Outcome
+  | 0, _, s => [(s.fail, none)]
+  | fuel + 1, c, s0 =>
+    -- the loop variable is the canonical atom `$i`
+    let look (a : String) : Val := if c.lvar != "" && a == c.lvar then ⟨["$i"], "num"⟩ else lookupVal s0.env a
+    let args := c.args.map look
+    let recv := look c.recv
+    let s : St := if c.loop == "" then s0 else { s0 with lp := (lookupVal s0.env c.loop).tm }
+    (fun (os : List Outcome) => os.map fun (o : Outcome) => ({ o.1 with lp := s0.lp }, o.2)) <|
+    if c.kind == "unsupported" then [(s.fail, none)]
+    else if c.kind == "noop" || c.kind == "throw" then [(s, none)]
+    else if c.mode == "ret" then [(s, some (args.headD ⟨[], ""⟩))]
+    else if c.kind == "kernel" || (c.kind == "method" && !node && recv.ty == "var" && (c.name == "reshape" || c.name == "flatten")) then
+      let k : KCall := ⟨c.name, recv.tm, args.map (·.tm), s.lp⟩
+      let v : Val := ⟨resultAtom s.nres, "var"⟩
+      [(store c v { s with trace := s.trace ++ [k], nres := s.nres + 1 }, none)]
+    else if c.kind == "fn" then
+      -- an explicit template argument `f<Tensor>` fixes the level
+      let lvl := if c.recv == "Tensor" then false else if c.recv == "Node" then true else node
+      match findFn t lvl c.name (args.map (·.ty)) with
+      | none => [(s.fail, none)]
+      | some f =>
+        (evalFn t lvl fuel f args s).map fun (o : Outcome) =>
+          match o.2 with
+          | some v => (store c v o.1, none)
+          | none => (o.1.fail, none)
+    else if c.kind == "op" then
+      match findArith t c.name (args.map (·.ty)) with
+      | none => [(s.fail, none)]
+      | some f =>
+        (evalFn t node fuel f args s).map fun (o : Outcome) =>
+          match o.2 with
+          | some v => (store c v o.1, none)
+          | none => (o.1.fail, none)
+    else if c.kind == "reg" then
+      match t.findOp c.name with
+      | none => [(s.fail, none)]
+      | some o =>
+        let cargs := c.cargs.map look
+        -- attribute ↦ constructor argument
+        let attrEnv : List (String × Val) := o.ctorInit.filterMap fun (p : String × String) =>
+          match (o.ctorParams.map (·.name)).idxOf? p.2 with
+          | none => none
+          | some i =>
+            match cargs[i]? with
+            | none => none
+            | some v => some (p.1, ⟨v.tm, ((o.attrs.find? (·.name == p.1)).map (·.ty)).getD v.ty⟩)
+        -- the argument vector: either a list of nodes or one vector of nodes
+        let single := match args with | [v] => isVecTy v.ty | _ => false
+        let xs : Val := if single then ⟨(args.headD default).tm, "varptrs"⟩ else ⟨mkList (args.map (·.tm)), "varptrs"⟩
+        let xEnv : List (String × Val) :=
+          if single then [("x*", xs), ("x0", ⟨firstElem xs.tm, "var"⟩)]
+          else ("x*", xs) :: xNames.zip (args.map fun v => ⟨v.tm, "var"⟩)
+        -- the shapes of the arguments; of a vector of nodes: the vector of their shapes
+        let shEnv : List (String × Val) := xEnv.map fun (p : String × Val) =>
+          if p.1 == "x*" then
+            (p.1, ⟨if single then "loopvec" :: mkApp "shape" [mkApp "at" [p.2.tm, ["$i"]]] else mkList (args.map fun v => mkApp "shape" [v.tm]), "shapeptrs"⟩)
+          else (p.1, ⟨mkApp "shape" [p.2.tm], "shape"⟩)
+        -- static shape: FWD_SHAPE (no kernel call can occur there)
+        let shOuts := evalBody t false fuel o.fwdShape.body { s with env := attrEnv ++ shEnv }
+        let shapeTm : Tm :=
+          match shOuts with
+          | [so] =>
+            (match o.retn with
+             | .attr _ => (lookupVal so.1.env "y[i]").tm
+             | _ => (lookupVal so.1.env "y0").tm)
+          | _ => []
+        let shBad := match shOuts with | [so] => so.1.bad || so.1.trace.length != s.trace.length | _ => true
+        let s0 : St := if shBad then s.fail else s
+        let first := s0.trace.length
+        if o.innerValues then
+          (evalBody t false fuel o.innerBody { s0 with env := attrEnv }).map fun (io : Outcome) =>
+            let r : Tm := match io.2 with | some v => firstElem v.tm | none => []
+            let s1 := { io.1 with env := s.env, regs := io.1.regs ++ [⟨o.name, shapeTm, first, io.1.trace.length - first, r⟩] }
+            (store c ⟨r, "nodes"⟩ (if io.2.isNone then s1.fail else s1), none)
+        else
+          (evalBody t false fuel o.fwd.body { s0 with env := attrEnv ++ xEnv }).map fun (fo : Outcome) =>
+            let r : Tm :=
+              match o.retn with
+              | .attr _ => "loopvec" :: (lookupVal fo.1.env "y[i]").tm
+              | _ => (lookupVal fo.1.env "y0").tm
+            let s1 := { fo.1 with env := s.env, regs := fo.1.regs ++ [⟨o.name, shapeTm, first, fo.1.trace.length - first, r⟩] }
+            (store c ⟨r, "nodes"⟩ s1, none)
+    else
+      [(store c (pureVal c recv args) s, none)]
+
+end
+
+def initSt (env : List (String × Val)) : St := ⟨env, [], [], [], 0, [], false⟩
+
+/-- fuel of the symbolic evaluation: more than the longest call chain × body length in the table -/
+def FUEL : Nat := 200
+
+/-- parameters as positional atoms `p0 p1 …` -/
+def paramVals (ps : List Param) : List Val := (pNames.zip ps).map fun (p : String × Param) => ⟨[p.1], p.2.ty⟩
+
+def Fn.outcomes (t : Table) (node : Bool) (f : Fn) : List Outcome :=
+  evalFn t node FUEL f (paramVals f.params) (initSt [])
+
+/-! ## `Api.same_kernel` -/
+
+/-- The Tensor counterpart of a Node function: the specialisation of the same
+template (same name and parameter types), or — for the `*_node` / `*_tensor`
+pairs — the function that the sibling `<Tensor>` specialisation in
+basic_functions.h calls (the Node function may have an extra trailing `Graph *`). -/
+def dropGraph (ps : List Param) : List String := (ps.filter (fun p => tyNorm p.ty != "graph")).map (fun p => tyNorm p.ty)
+
+def soleFnCall (f : Fn) : Option String :=
+  match (bodyCalls f.body).filter (·.kind == "fn") with
+  | [c] => some c.name
+  | _ => none
+
+def counterpart (t : Table) (f : Fn) : Option Fn :=
+  match t.tensorFns.find? (fun g => g.name == f.name && g.params.map (fun p => tyNorm p.ty) == f.params.map (fun p => tyNorm p.ty)) with
+  | some g => some g
+  | none =>
+    -- basic_functions.h: `template<> Node name<Node>(…) { return f(…, nullptr); }`
+    match t.basicFns.find? (fun w => w.targ == "Node" && soleFnCall w == some f.name) with
+    | none => none
+    | some w =>
+      match t.basicFns.find? (fun w' => w'.targ == "Tensor" && w'.name == w.name && w'.params.map (fun p => tyNorm p.ty) == w.params.map (fun p => tyNorm p.ty)) with
+      | none => none
+      | some w' =>
+        match soleFnCall w' with
+        | none => none
+        | some tn => t.tensorFns.find? (fun g => g.name == tn && dropGraph g.params == dropGraph f.params)
+
+/-- the public Node functions: everything in node_funcs.cc outside the anonymous namespace -/
+def Table.publicNodeFns (t : Table) : List Fn := t.nodeFns.filter (·.ns != "(anon)")
+
+def pcCompatible (a b : List (Tm × Bool)) : Bool :=
+  a.all fun p => match b.lookup p.1 with | some v => v == p.2 | none => true
+
+/-- kernels for which `k(x, s) = k(s, x)` when both arguments are scalars (x + s, x * s) -/
+def commutativeScalarKernels : List String := ["add_scalar_fw", "multiply_scalar_fw"]
+
+def scalarIn (pc : List (Tm × Bool)) (tm : Tm) : Bool :=
+  pc.lookup (mkApp "is_scalar" [mkApp "shape" [tm]]) == some true
+
+/-- Same kernel, same arguments in the same order.  The receiver (the device) is compared when it
+is chosen by a device parameter; when it is the device of an argument the two paths may take it
+from different arguments of the same call.  For the two commutative scalar kernels the operands
+may be swapped when both are scalars. -/
+def kcallEq (pc : List (Tm × Bool)) (a b : KCall) : Bool :=
+  a.kernel == b.kernel && a.loop == b.loop &&
+  (a.recv == b.recv || (!isDevsel a.recv && !isDevsel b.recv)) &&
+  (a.args == b.args ||
+    (commutativeScalarKernels.contains a.kernel && a.args == b.args.reverse && a.args.all (scalarIn pc)))
+
+def traceEq (pc : List (Tm × Bool)) : List KCall → List KCall → Bool
+  | [], [] => true
+  | a :: as, b :: bs => kcallEq pc a b && traceEq pc as bs
+  | _, _ => false
+
+def outcomeEq (n t : Outcome) : Bool :=
+  !n.1.bad && !t.1.bad &&
+  traceEq (n.1.pc ++ t.1.pc) n.1.trace t.1.trace &&
+  (match n.2, t.2 with
+   | some a, some b => a.tm == b.tm
+   | _, _ => false)
+
+def Fn.sameKernel (t : Table) (f : Fn) : Bool :=
+  match counterpart t f with
+  | none => false
+  | some g =>
+    let ns := f.outcomes t true
+    let ts := g.outcomes t false
+    !ns.isEmpty && !ts.isEmpty &&
+    ns.all fun n => ts.all fun o => !pcCompatible n.1.pc o.1.pc || outcomeEq n o
+
+def Table.sameKernel (t : Table) : Bool := t.publicNodeFns.all (Fn.sameKernel t)
+
+def Table.sameKernelOffenders (t : Table) : List String :=
+  (t.publicNodeFns.filter (fun f => !f.sameKernel t)).map (·.name)
+
+/-! ## `Api.shape_rule_consistent` -/
+
+/-- The output shape expression of the device front-end (device.cc) or Tensor
+method (tensor.cc) behind a kernel call: the argument of `new_raw_tensor` /
+`new_handle` (the first argument of the `Tensor(…)` constructor for
+`Tensor::reshape/flatten`), with the parameters replaced by the call's arguments. -/
+def frontShape (t : Table) (k : KCall) : Option Tm :=
+  match t.fronts.find? (fun f => f.name == k.kernel && f.params.length == k.args.length) with
+  | some f =>
+    let env := (f.params.zip k.args).map fun (p : Param × Tm) => (p.1.name, (⟨p.2, p.1.ty⟩ : Val))
+    (match evalBody t false FUEL f.body (initSt env) with
+     | [o] =>
+       if o.1.bad then none else
+       -- the allocation call and its evaluated first argument
+       (match (bodyCalls f.body).find? (fun c => c.kind == "self" && (c.name == "new_raw_tensor" || c.name == "new_handle")) with
+        | some c => (c.args.head?).map fun a => (lookupVal o.1.env a).tm
+        | none => none)
+     | _ => none)
+  | none =>
+    match t.tmethods.find? (fun f => f.name == k.kernel && f.params.length == k.args.length) with
+    | none => none
+    | some f =>
+      let env := ("shape_", (⟨mkApp "shape" [k.recv], "shape"⟩ : Val)) ::
+        (f.params.zip k.args).map fun (p : Param × Tm) => (p.1.name, (⟨p.2, p.1.ty⟩ : Val))
+      (match evalBody t false FUEL f.body (initSt env) with
+       | [o] =>
+         if o.1.bad then none else
+         (match (bodyCalls f.body).find? (fun c => c.kind == "ctor" && c.name == "Tensor") with
+          | some c => (c.args.head?).map fun a => (lookupVal o.1.env a).tm
+          | none => none)
+       | _ => none)
+
+/-- operators whose FORWARD rule runs several kernels; their static shape rule has its own
+logic and is compared with the Tensor path by the correspondence run only -/
+def compositeOps : List String := ["Split", "BatchSplit", "SoftmaxCrossEntropy", "SparseSoftmaxCrossEntropy"]
+
+def regShapeOk (t : Table) (s : St) (r : RegRec) : Bool :=
+  match t.findOp r.op with
+  | none => false
+  | some o =>
+    if r.count == 1 then
+      match s.trace[r.first]? with
+      | none => false
+      | some k =>
+        if k.loop != [] then compositeOps.contains r.op
+        else
+          frontShape t k == some r.shapeTm ||
+          -- both operands scalars: `scalar_op(a, b)` and `scalar_op(b, a)` are the same shape
+          (commutativeScalarKernels.contains k.kernel && k.args.all (scalarIn s.pc) &&
+            frontShape t { k with args := k.args.reverse } == some r.shapeTm)
+    else if r.count == 0 then
+      -- no kernel: the value is one of the arguments / the parameter's value
+      o.innerValues || r.shapeTm == mkApp "shape" [r.ret]
+    else compositeOps.contains r.op
+
+def Fn.shapeRuleOk (t : Table) (f : Fn) : Bool :=
+  let ns := f.outcomes t true
+  !ns.isEmpty && ns.all fun n => !n.1.bad && n.1.regs.all (regShapeOk t n.1)
+
+def Table.shapeRuleConsistent (t : Table) : Bool := t.publicNodeFns.all (Fn.shapeRuleOk t)
+
+def Table.shapeRuleOffenders (t : Table) : List String :=
+  (t.publicNodeFns.filter (fun f => !f.shapeRuleOk t)).map (·.name)
+
+/-- every operator of the table is registered by some public Node function -/
+def Table.allOpsReachable (t : Table) : Bool :=
+  t.ops.all fun o => t.nodeFns.any fun f => (bodyCalls f.body).any fun c => c.kind == "reg" && c.name == o.name
 
 end Primitiv.OpTable
